@@ -153,11 +153,29 @@ def builtins_stage(c, _model_exe_refsem=None, replay=None):
     args = [exe, "--seed", str(c.seed), "--tier", c.tier, "--out", cases, "--stats", stats]
     if replay:
         args += ["--replay", replay]
+    for f in (cases, cases + ".current"):
+        if os.path.exists(f):
+            os.remove(f)
     rc, out = common.sh(args, cwd=common.BUILD, timeout=1500, env=common.env_go())
+    died = None
     if rc != 0:
-        c.log("builtins harness failed rc=%s: %s" % (rc, out[-1500:]))
-        c.violation({"kind": "harness-crashed (c02b)", "rc": rc, "log": out[-3000:]}, no_input=(rc == 124), tag="crash")
-        return 0
+        # the harness died (fatal Go error, e.g. stack overflow in a builtin) or its watchdog fired (rc 97: an
+        # evaluation did not return).  What was compared before is still checked; the program that was being
+        # evaluated is in <cases>.current
+        c.log("builtins harness stopped rc=%s: %s" % (rc, out[-600:]))
+        died = {"rc": rc, "log": out[-1500:]}
+        try:
+            cur = open(cases + ".current").read().rstrip("\n").split("\t")
+            died["prefix"], died["source"] = cur[0], (cur[1] if len(cur) > 1 else "")
+        except Exception:
+            pass
+        if not os.path.exists(cases) or os.path.getsize(cases) == 0:
+            c.violation({"kind": "harness-crashed (c02b)", "detail": died}, no_input=("prefix" not in died), tag="crash")
+            return 1
+        # drop a last, incomplete line
+        lines = open(cases).read().split("\n")
+        good = [l for l in lines if l.count("\t") >= 3]
+        open(cases, "w").write("\n".join(good) + "\n")
     mout = os.path.join(common.BUILD, "C02b.model")
     rc, err = common.run_model(model_exe, cases, mout)
     if rc != 0:
@@ -186,6 +204,19 @@ def builtins_stage(c, _model_exe_refsem=None, replay=None):
         "streams": "exh1 (every builtin on every value of a 31-value boundary set), exh2 (19 binary builtins on all ordered pairs), truthy, random typed trees (depth<=4, let/cond, 4% ill-typed), sharing probes (a sequence bound once, 1-3 operations on it, results AND the original inspected)",
     }
     viol = 0
+    if died:
+        d = dict(died)
+        d.update({"kind": "builtins: the interpreter did not survive / did not return from a builtin-call tree (rc 97 = no return within 30 s; "
+                          "otherwise a fatal Go error such as a stack overflow)", "stream": "builtins",
+                  "implementation": "HANG" if died["rc"] == 97 else "CRASH",
+                  "replay": "bin/check C02 --replay <this file>"})
+        if "prefix" in died:
+            r = _run_batch(c, exe, model_exe, [died["prefix"]], "died")
+            d["reproduced_alone_in_fresh_interpreter"] = r is None
+            mo = common.sh([model_exe], cwd=common.BUILD, timeout=60, stdin="1\t%s\n" % died["prefix"])
+            d["model"] = d["specification"] = (mo[1].split("\t")[1] if mo[0] == 0 and "\t" in mo[1] else "?")
+        viol += 1
+        c.violation(d, no_input=("prefix" not in died), tag="crash")
     for (cid, inp, obs, model, src) in panics[:2]:
         viol += 1
         c.violation({"kind": "builtins: the interpreter panicked on a builtin-call tree", "stream": "builtins", "source": src, "prefix": inp,
